@@ -2,14 +2,22 @@ import Driver.Common
 import Driver.Inlines
 import Driver.Convert
 import GM.Model.ConvertX
+import GM.Model.ConvertL
+import GM.Model.ConvertXRect
 /-!
   `convertx html <cfg> <hex source> <unicode classes>` → `g<0|1> <r0> … <r7>` | `g<0|1> err:<outcome>`:
   the model GM.ConvertX.convertX of `goldmark.New(WithExtensions(members), WithRendererOptions(…)).Convert`;
   `cfg` = 1·strikethrough + 2·tasklist + 4·table; option set index `i = 4·unsafe + 2·xhtml + hardWraps`; `r_i` = lower-case
   hex of the HTML, or `=j` when byte-identical to `r_j`, `j < i`. `g0`: the guarded composition answered; `g1`: a run-time
   check fired and the answer is `convertXUnguarded`'s.
+  `convertx htmll <cfg> <hex source> <unicode classes>` → the same for GM.ConvertX.convertL: `cfg` as above + 8·linkify (15 = the
+  member set of extension.GFM).
+  `convertx htmlf <cfg> <hex source> <unicode classes>` → the same for GM.ConvertX.convertFlush (`cfg` < 8: the member set next to
+  a parser with Linkify's triggers and priority whose Parse returns nil).
   `convertx rect <cfg> <hex source> <unicode classes>` → `ok` when every Table node of the tree `convertX` renders is rectangular
-  (GM.ConvertX.rectB: the Lean-defined C17 oracle on the model's tree), else `not-rectangular` | `err:<outcome>`.
+  (GM.ConvertX.rectB: the Lean-defined C17 oracle on the model's tree) AND the block tree read out of the store is rectangular in
+  the store's encoding (GM.ConvertX.rectT, the hypothesis of GM.Props.ConvertX.tables_rectangular_of_store), else
+  `not-rectangular` | `store-not-rectangular` | `err:<outcome>`.
   `convertx tree <cfg> <hex source>` → the block tree dump of the block phase with the members' paragraph transformers.
 -/
 namespace Driver.ConvX
@@ -36,6 +44,28 @@ def convHtmlX (c : XCfg) (uc : List (Nat × (Bool × Bool))) (src : Bytes) : Str
       | .error e' => "g1 err:" ++ e'.str
     else "g0 err:" ++ e.str
 
+def cfgOfL (n : Nat) : GCfg := { base := cfgOf n, linkify := n / 8 % 2 == 1 }
+
+def convHtmlL (c : GCfg) (uc : List (Nat × (Bool × Bool))) (src : Bytes) : String :=
+  match parseDocL c true uc src with
+  | .ok t => "g0 " ++ renderAllX c.base t
+  | .error e =>
+    if isGuardErr e then
+      match parseDocL c false uc src with
+      | .ok t => "g1 " ++ renderAllX c.base t
+      | .error e' => "g1 err:" ++ e'.str
+    else "g0 err:" ++ e.str
+
+def convHtmlF (c : XCfg) (uc : List (Nat × (Bool × Bool))) (src : Bytes) : String :=
+  match parseDocF c true uc src with
+  | .ok t => "g0 " ++ renderAllX c t
+  | .error e =>
+    if isGuardErr e then
+      match parseDocF c false uc src with
+      | .ok t => "g1 " ++ renderAllX c t
+      | .error e' => "g1 err:" ++ e'.str
+    else "g0 err:" ++ e.str
+
 end Driver.ConvX
 
 namespace Driver
@@ -46,11 +76,25 @@ def handleConvertX : List String → String
     match cfg.toNat?, bytesOfHex src, Driver.Inl.ucsTok uc with
     | some cfg, some src, some uc => convHtmlX (cfgOf cfg) uc src
     | _, _, _ => bad
+  | ["htmll", cfg, src, uc] =>
+    match cfg.toNat?, bytesOfHex src, Driver.Inl.ucsTok uc with
+    | some cfg, some src, some uc => convHtmlL (cfgOfL cfg) uc src
+    | _, _, _ => bad
+  | ["htmlf", cfg, src, uc] =>
+    match cfg.toNat?, bytesOfHex src, Driver.Inl.ucsTok uc with
+    | some cfg, some src, some uc => convHtmlF (cfgOf cfg) uc src
+    | _, _, _ => bad
   | ["rect", cfg, src, uc] =>
     match cfg.toNat?, bytesOfHex src, Driver.Inl.ucsTok uc with
     | some cfg, some src, some uc =>
       match parseDocX (cfgOf cfg) true uc src with
-      | .ok t => if rectB t then "ok" else "not-rectangular"
+      | .ok t =>
+        if !rectB t then "not-rectangular"
+        else
+          match storeRect (cfgOf cfg) src with
+          | .ok true => "ok"
+          | .ok false => "store-not-rectangular"
+          | .error e => "err:" ++ e.str
       | .error e => "err:" ++ e.str
     | _, _, _ => bad
   | ["tree", cfg, src] =>
